@@ -1,6 +1,8 @@
 //! C01 — routing: which appenders receive a record for (target, level).
 //! case: ( (appname ...) (rootlevel (appname ...)) ((name level additive (appname ...)) ...)
-//!         ((target level) ...) )
+//!         ((target level) ...) [ (failing-appender-index ...) ] )
+//! Appenders named in the optional 5th component record the call and then return
+//! Err: a failing appender must not keep the record from the rest of the chain.
 //! result: per probe the list of appender indices (position in the appender
 //! declaration list) whose `append` was called, in call order; ("err" 1) when
 //! the config does not build.
@@ -12,11 +14,12 @@ use vh::val::Val;
 fn run(case: &Val) -> Val {
     let c = case.l();
     let rec = new_rec();
+    let failing: Vec<usize> = if c.len() > 4 { c[4].l().iter().map(|v| v.u()).collect() } else { vec![] };
     let mut builder = Config::builder();
     for (i, a) in c[0].l().iter().enumerate() {
         builder = builder.appender(Appender::builder().build(
             a.str(),
-            Box::new(RecAppender { idx: i, fails: false, rec: rec.clone() }),
+            Box::new(RecAppender { idx: i, fails: failing.contains(&i), rec: rec.clone() }),
         ));
     }
     for lg in c[2].l() {
@@ -36,7 +39,8 @@ fn run(case: &Val) -> Val {
         Ok(c) => c,
         Err(_) => return Val::err(1),
     };
-    let logger = log4rs::Logger::new(config);
+    // same construction as Logger::new, with a silent error handler (failing appenders)
+    let logger = log4rs::Logger::new_with_err_handler(config, Box::new(|_e: &anyhow::Error| {}));
     let mut out = vec![];
     for p in c[3].l() {
         let p = p.l();
